@@ -1,4 +1,4 @@
-import FpgoVerif.Proofs.C11Lemmas
+import FpgoVerif.Proofs.C11Refine
 import FpgoVerif.Gen.C11Skeletons
 /-! Property theorems for C11 — MonadIO is lazy, runs its effect once per evaluation, obeys the monad laws.
 
@@ -137,8 +137,8 @@ theorem C11_laws_subscribe (a : α) (m : M α) (f k : α → M α) (s : Subscrip
 theorem C11_subscribe_once (m : M α) (onNext : α → Tag → World → World) (ob sub : Option Tag) (g : Tag)
     (w : World) :
     doSubscribe m ⟨some onNext⟩ ob sub g w =
-      onNext (eval m (ob.getD g) w).1 (sub.getD (ob.getD g)) (eval m (ob.getD g) w).2 := by
-  cases ob <;> cases sub <;> rfl
+      onNext (eval m (ob.getD g) w).1 (sub.getD (ob.getD g)) (eval m (ob.getD g) w).2 :=
+  subscribe_once m onNext ob sub g w
 
 /-- A Subscription without OnNext runs nothing. -/
 theorem C11_subscribe_nil (m : M α) (ob sub : Option Tag) (g : Tag) (w : World) :
@@ -168,11 +168,8 @@ theorem C11_eval_ignores_handlers (m : M α) (h1 h2 : Option Tag) (g : Tag) (w :
 theorem C11_yieldFromIO (m : M Nat) (g : Tag) (w : World) :
     yieldFromIO m g w =
       (subscribeOn m none, (eval m (m.obOn.getD g) { w with cell := 0 }).1,
-       { (eval m (m.obOn.getD g) { w with cell := 0 }).2 with cell := (eval m (m.obOn.getD g) { w with cell := 0 }).1 }) := by
-  unfold yieldFromIO subscribe
-  show (_, World.cell (doSubscribe (subscribeOn m none) _ m.obOn none g _), doSubscribe (subscribeOn m none) _ m.obOn none g _) = _
-  rw [C11_subscribe_once]
-  rfl
+       { (eval m (m.obOn.getD g) { w with cell := 0 }).2 with cell := (eval m (m.obOn.getD g) { w with cell := 0 }).1 }) :=
+  yieldFromIO_eq m g w
 
 /-! ### Several objects derived from one object; subscriptions in flight -/
 
@@ -207,150 +204,6 @@ theorem C11_gated_delivery (st : ISt) (m : M Nat) (hb : Tag) (hm : st.regs st.cu
   exact ⟨_, rfl, fun w' => rfl⟩
 
 /-! ### The model the driver runs refines the Spec on every case line -/
-
-/-- one object and the world vs. the statement's view of it -/
-def RelB (s : M Nat × World) (st : SpecSt) : Prop :=
-  s.1.effect = (den st.t 0).effect ∧ s.1.obOn = st.ob ∧ s.1.subOn = st.sub ∧ s.2.log.length = st.n
-
-theorem basic_step (m : M Nat) (w : World) (st : SpecSt) (o : BOp) (hrel : RelB (m, w) st) :
-    RelB (implOp (m, w) o).1 (specOp' st o).1 ∧ (implOp (m, w) o).2 = (specOp' st o).2 := by
-  obtain ⟨he, hob, hsub, hn⟩ := hrel
-  simp only at he hob hsub hn
-  have hev : ∀ g w', eval m g w' = ((run st.t 0 w'.log.length).1, w'.emits (run st.t 0 w'.log.length).2 g) := by
-    intro g w'; unfold eval doEffect; rw [he]; exact den_effect st.t 0 g w'
-  have hsubs : ∀ w', subscribe m ⟨some logNext⟩ .main w' =
-      (w'.emits (run st.t 0 w'.log.length).2 (st.ob.getD .main)).emit (.next (run st.t 0 w'.log.length).1)
-        (st.sub.getD (st.ob.getD .main)) := by
-    intro w'; unfold subscribe; rw [C11_subscribe_once, hev, hob, hsub]; rfl
-  cases o with
-  | build => exact ⟨⟨he, hob, hsub, hn⟩, rfl⟩
-  | ob h => exact ⟨⟨he, rfl, hsub, hn⟩, rfl⟩
-  | so h => exact ⟨⟨he, hob, rfl, hn⟩, rfl⟩
-  | eval =>
-    simp only [implOp, specOp', hev, drop_emits, showEvs_kinds]
-    rw [← hn]
-    exact ⟨⟨he, hob, hsub, by simp⟩, rfl⟩
-  | sub =>
-    simp only [implOp, specOp', hsubs, drop_emits_emit, showEvs_kinds_next]
-    rw [← hn]
-    exact ⟨⟨he, hob, hsub, by simp [Nat.add_assoc]⟩, rfl⟩
-  | subNil =>
-    exact ⟨⟨he, hob, hsub, hn⟩, by simp [implOp, specOp', subscribe, C11_subscribe_nil, showEvs, joinEvs]⟩
-  | yield =>
-    have hev0 := hev (st.ob.getD .main) { w with cell := 0 }
-    have hd := drop_emits { w with cell := 0 } (run st.t 0 w.log.length).2 (st.ob.getD .main)
-    simp only [implOp, specOp', C11_yieldFromIO, hob, hev0]
-    rw [← hn]
-    refine ⟨⟨he, hob, rfl, by simp⟩, ?_⟩
-    show _ ++ toString (showEvs (List.drop w.log.length _)) = _
-    rw [hd, showEvs_kinds]
-
-/-- an object of the model vs. an object of the Spec -/
-def RelReg : Option (M Nat) → Option SReg → Prop
-  | none, none => True
-  | some m, some r => m.effect = (den r.t 0).effect ∧ m.obOn = r.ob ∧ m.subOn = r.sub
-  | _, _ => False
-
-def RelPend : Option (Tag × (World → World)) → Option (Tag × Nat × Tag) → Prop
-  | none, none => True
-  | some (hb, k), some (hb', v, g2) => hb = hb' ∧ k = fun w => w.emit (.next v) g2
-  | _, _ => False
-
-def Rel (s : ISt) (t : SSt) : Prop :=
-  (∀ k, RelReg (s.regs k) (t.regs k)) ∧ s.cur = t.cur ∧ s.w.log.length = t.n ∧ RelPend s.pend t.pend ∧
-    s.allowSame = t.allowSame
-
-theorem relReg_set {regs : Nat → Option (M Nat)} {sregs : Nat → Option SReg} (h : ∀ k, RelReg (regs k) (sregs k))
-    (j j' : Nat) (hj : j = j') (m : M Nat) (r : SReg) (hr : RelReg (some m) (some r)) :
-    ∀ k, RelReg (setReg regs j m k) (setReg sregs j' r k) := by
-  subst hj
-  intro k; unfold setReg; by_cases hk : k = j <;> simp [hk, hr, h k]
-
-theorem rel_step (s : ISt) (t : SSt) (o : Op) (h : Rel s t) :
-    Rel (implStep s o).1 (specStep t o).1 ∧ (implStep s o).2 = (specStep t o).2 := by
-  obtain ⟨hregs, hcur, hn, hpend, hsame⟩ := h
-  have hcurReg : RelReg (s.regs s.cur) (t.regs t.cur) := hcur ▸ hregs s.cur
-  cases o with
-  | sel j =>
-    have hj := hregs j
-    simp only [implStep, specStep]
-    revert hj
-    cases s.regs j <;> cases t.regs j <;> intro hj <;> simp only [RelReg] at hj
-    · exact ⟨⟨hregs, hcur, hn, hpend, hsame⟩, rfl⟩
-    · exact ⟨⟨hregs, rfl, hn, hpend, hsame⟩, rfl⟩
-  | derive j c b =>
-    simp only [implStep, specStep]
-    revert hcurReg
-    cases s.regs s.cur <;> cases t.regs t.cur <;> intro hr <;> simp only [RelReg] at hr
-    · exact ⟨⟨hregs, hcur, hn, hpend, hsame⟩, rfl⟩
-    · rename_i m r
-      refine ⟨⟨relReg_set hregs j j rfl _ _ ⟨?_, rfl, rfl⟩, hcur, hn, hpend, hsame⟩, rfl⟩
-      simp only [den, flatMap, doEffect, hr.1]
-  | gopen =>
-    simp only [implStep, specStep]
-    cases hpi : s.pend <;> cases hps : t.pend <;> (have hp' := hpend; rw [hpi, hps] at hp'; simp only [RelPend] at hp')
-    · exact ⟨⟨hregs, hcur, hn, hpend, hsame⟩, rfl⟩
-    · rename_i p q
-      obtain ⟨hb, k⟩ := p
-      obtain ⟨hb', v, g2⟩ := q
-      simp only [RelPend] at hp'
-      obtain ⟨_, rfl⟩ := hp'
-      refine ⟨⟨hregs, hcur, ?_, trivial, hsame⟩, ?_⟩
-      · show (s.w.emit _ _).log.length = t.n + 1
-        simp [hn]
-      · show showEvs ((s.w.emit _ _).log.drop s.w.log.length) = _
-        simp [showEvs, joinEvs, showKinds]
-  | gsub =>
-    simp only [implStep, specStep]
-    revert hcurReg
-    cases s.regs s.cur <;> cases t.regs t.cur <;> intro hr <;> simp only [RelReg] at hr
-    · exact ⟨⟨hregs, hcur, hn, hpend, hsame⟩, rfl⟩
-    · rename_i m r
-      cases hpi : s.pend <;> cases hps : t.pend <;> (have hp' := hpend; rw [hpi, hps] at hp'; simp only [RelPend] at hp')
-      · dsimp only
-        rw [hr.2.1, hr.2.2, hsame]
-        cases hob : (if (!t.allowSame && sameUnbuffered r.ob r.sub) = true then none else r.ob) with
-        | none => exact ⟨⟨hregs, hcur, hn, hpend, hsame⟩, rfl⟩
-        | some hb =>
-          have hobr : r.ob = some hb := by
-            revert hob; split <;> intro hob
-            · cases hob
-            · exact hob
-          have hev : doEffect m hb s.w = ((run r.t 0 s.w.log.length).1, s.w.emits (run r.t 0 s.w.log.length).2 hb) := by
-            unfold doEffect; rw [hr.1]; exact den_effect r.t 0 hb s.w
-          dsimp only
-          simp only [doSubscribeSplit, hobr, Option.getD_some]
-          refine ⟨⟨hregs, hcur, ?_, ?_, rfl⟩, ?_⟩
-          · show (doEffect m hb s.w).2.log.length = _
-            rw [hev, ← hn]; simp
-          · show RelPend (some (hb, _)) (some (hb, _, _))
-            refine ⟨rfl, ?_⟩
-            show (fun w' => logNext (doEffect m hb s.w).1 (r.sub.getD hb) w') = _
-            rw [hev, ← hn]; rfl
-          · show showEvs ((doEffect m hb s.w).2.log.drop s.w.log.length) = _
-            rw [hev, drop_emits, showEvs_kinds, ← hn]
-      · exact ⟨⟨hregs, hcur, hn, hpend, hsame⟩, rfl⟩
-  | basic o =>
-    simp only [implStep, specStep]
-    revert hcurReg
-    cases s.regs s.cur <;> cases t.regs t.cur <;> intro hr <;> simp only [RelReg] at hr
-    · exact ⟨⟨hregs, hcur, hn, hpend, hsame⟩, rfl⟩
-    · rename_i m r
-      have hguard : guarded s.allowSame s.pend m.obOn m.subOn o = guarded t.allowSame t.pend r.ob r.sub o := by
-        cases hpi : s.pend <;> cases hps : t.pend <;> (have hp' := hpend; rw [hpi, hps] at hp'; simp only [RelPend] at hp')
-        · simp only [guarded, hr.2.1, hr.2.2, hsame]
-        · rename_i p q
-          obtain ⟨hb, k⟩ := p
-          obtain ⟨hb', v, g2⟩ := q
-          simp only [RelPend] at hp'
-          simp only [guarded, hp'.1, hr.2.1, hr.2.2, hsame]
-      dsimp only
-      rw [hguard]
-      split
-      · exact ⟨⟨hregs, hcur, hn, hpend, hsame⟩, rfl⟩
-      · have hb := basic_step m s.w ⟨r.t, r.ob, r.sub, t.n⟩ o ⟨hr.1, hr.2.1, hr.2.2, hn⟩
-        obtain ⟨⟨h1, h2, h3, h4⟩, hout⟩ := hb
-        exact ⟨⟨relReg_set hregs _ _ hcur _ _ ⟨h1, h2, h3⟩, hcur, h4, hpend, hsame⟩, hout⟩
 
 /-- For every case line (any tree; any script of Eval / Subscribe / nil-Subscribe / YieldFromIO / ObserveOn /
     SubscribeOn operations on up to four objects, objects derived from a common object, a gated subscription with
